@@ -78,3 +78,12 @@ func VerifHash(sessionHash []byte, msgID string, anyPB *anypb.Any) ([]byte, erro
 
 // VerifProtocolIDs returns the signature-request and message protocol ids.
 func VerifProtocolIDs() (protocol.ID, protocol.ID) { return protocolIDSig, protocolIDMsg }
+
+// VerifWrapSign replaces the sign function used by the server's signature-request handler with
+// wrap(current). The client's own signer is not affected. Must be called before the handlers are
+// used concurrently. A harness uses it to hold a request inside signing while a second request of
+// the same peer and message id reaches the dedup check.
+func (c *Component) VerifWrapSign(wrap func(next func(msgID string, hash []byte) ([]byte, error)) func(msgID string, hash []byte) ([]byte, error)) {
+	next := c.srv.signFunc
+	c.srv.signFunc = wrap(func(msgID string, hash []byte) ([]byte, error) { return next(msgID, hash) })
+}
